@@ -77,7 +77,7 @@ fn observe(ctx: &mut Ctx, p: *const u8, expected: V, what: impl Fn() -> String) 
 fn run(ctx: &mut Ctx) {
     // ---------------- load
     let max_len: u32 = if ctx.quick() && ctx.dev_profile() { 4096 + 16 } else { 65536 + 16 };
-    ctx.bound("load", format!("null pointer; length word 0..={} x architecture {{0,4}} x magic {{MAGIC, MAGIC^1, 0, byte-swapped MAGIC, half-swapped MAGIC, 0x36D76289, 0x1BADB002}} x checksum {{correct, +1, -1, ^0x80000000}}, and with the spec magic additionally the checksums of other conventions {{magic / architecture / length left out, the other architecture, length +-8 / +16, plain sum, one's complement, xor sum, byte-swapped length, byte-swapped checksum, 0}}; for lengths 0..=64, 4096 and 65536 additionally magic with every single bit flipped x checksum with every single bit flipped; header placed flush against a PROT_NONE guard page", max_len));
+    ctx.bound("load", format!("null pointer; length word 0..={} x architecture {{0,4}} x magic {{MAGIC, MAGIC^1, 0, byte-swapped MAGIC, half-swapped MAGIC, 0x36D76289, 0x1BADB002}} x checksum {{correct, +1, -1, ^0x80000000}}, and with the spec magic additionally the checksums of other conventions {{magic / architecture / length left out, the other architecture, length +-8 / +16, plain sum, one's complement, xor sum, byte-swapped length, byte-swapped checksum, 0}} and for the dense lengths every EDGE32 value as a literal checksum word; for lengths 0..=64, 4096 and 65536 additionally magic with every single bit flipped x checksum with every single bit flipped; header placed flush against a PROT_NONE guard page", max_len));
     let arena = Arena::new((max_len as usize + 16) / arena::PAGE + 2);
     arena.fill(0x5A);
     ctx.leaf(
@@ -130,6 +130,14 @@ fn run(ctx: &mut Ctx) {
                     ] {
                         if !sums.contains(&c) {
                             sums.push(c);
+                        }
+                    }
+                    // literal boundary values as the checksum word (0x80000000 negates to itself, ...)
+                    if dense {
+                        for &c in EDGE32.iter() {
+                            if !sums.contains(&c) {
+                                sums.push(c);
+                            }
                         }
                     }
                 }
